@@ -73,7 +73,8 @@ func CopyHeaders(proxyReq, originalReq *http.Request) {
 
 	// Via header tracks the request path through proxies (RFC 7230 section 5.7.1)
 	// we append to existing via headers to maintain the proxy chain
-	if via := originalReq.Header.Get(constants.HeaderVia); via != "" {
+	// a request may carry several Via lines: keep all of them, in order
+	if via := strings.Join(originalReq.Header.Values(constants.HeaderVia), ", "); via != "" {
 		proxyReq.Header.Set(constants.HeaderVia, via+", "+GetViaHeader())
 	} else {
 		proxyReq.Header.Set(constants.HeaderVia, GetViaHeader())
@@ -95,7 +96,8 @@ func CopyHeaders(proxyReq, originalReq *http.Request) {
 // updateForwardedHeaders updates X-Forwarded-* headers
 func updateForwardedHeaders(proxyReq, originalReq *http.Request) {
 	// X-Forwarded-For
-	if forwarded := originalReq.Header.Get(constants.HeaderXForwardedFor); forwarded != "" {
+	// a request may carry several X-Forwarded-For lines: keep all of them, in order
+	if forwarded := strings.Join(originalReq.Header.Values(constants.HeaderXForwardedFor), ", "); forwarded != "" {
 		if clientIP := extractClientIP(originalReq); clientIP != "" {
 			proxyReq.Header.Set(constants.HeaderXForwardedFor, forwarded+", "+clientIP)
 		} else {
